@@ -33,6 +33,28 @@ func csExpr(fset *token.FileSet, e ast.Node) string {
 	return strings.Join(strings.Fields(b.String()), " ")
 }
 
+// csBase names the indexed / asserted operand robustly against renamings of
+// locals that are not the operand itself: the last identifier of a selector
+// chain (`res.Results` → "Results"), the callee of a call (`v.Value()` →
+// "Value()"), the operand of a nested index (`a.b[i]` → "b[_]").
+func csBase(fset *token.FileSet, e ast.Expr) string {
+	switch x := e.(type) {
+	case *ast.Ident:
+		return x.Name
+	case *ast.SelectorExpr:
+		return x.Sel.Name
+	case *ast.CallExpr:
+		return csBase(fset, x.Fun) + "()"
+	case *ast.IndexExpr:
+		return csBase(fset, x.X) + "[_]"
+	case *ast.ParenExpr:
+		return csBase(fset, x.X)
+	case *ast.StarExpr:
+		return csBase(fset, x.X)
+	}
+	return csExpr(fset, e)
+}
+
 func csFuncName(fd *ast.FuncDecl) string {
 	if fd.Recv != nil && len(fd.Recv.List) == 1 {
 		t := fd.Recv.List[0].Type
@@ -84,12 +106,12 @@ func clientSitesOf(repo string) ([]clientSite, error) {
 				case *ast.IndexExpr:
 					// generic instantiation / map or slice types in type position do not occur in these files;
 					// an index on a map cannot panic but is listed (audited as `map`)
-					out = append(out, clientSite{rel, fn, "index", csExpr(fset, x)})
+					out = append(out, clientSite{rel, fn, "index", csBase(fset, x.X) + "[_]"})
 				case *ast.SliceExpr:
-					out = append(out, clientSite{rel, fn, "slice", csExpr(fset, x)})
+					out = append(out, clientSite{rel, fn, "slice", csBase(fset, x.X) + "[_:_]"})
 				case *ast.TypeAssertExpr:
 					if x.Type != nil && !checked[x] { // Type == nil: type switch
-						out = append(out, clientSite{rel, fn, "assert", csExpr(fset, x)})
+						out = append(out, clientSite{rel, fn, "assert", csBase(fset, x.X) + ".(" + csExpr(fset, x.Type) + ")"})
 					}
 				}
 				return true
